@@ -175,6 +175,29 @@ def corpus(only=None):
     shutil.rmtree("/tmp/mhsim-target-corpus", ignore_errors=True)
 
 
+def noalarm(only=None):
+    """Apply every stored behaviour-preserving refactoring to a scratch worktree and run ALL quick
+    checks (40% of the runs) against it: every one must stay silent."""
+    import glob
+    props = ["C01", "C02", "C03", "C04", "C05", "C06", "C07", "C08", "C09", "C10", "C11", "C12", "C13", "C14", "C18"]
+    bad = 0
+    for d in sorted(glob.glob(os.path.join(VERIF, "refactorings", "*"))):
+        rid = os.path.basename(d)
+        if only and rid not in only:
+            continue
+        fake = "/tmp/mhref-" + rid
+        os.makedirs(os.path.join(fake, "_out"), exist_ok=True)
+        shutil.copy(os.path.join(d, "patch.diff"), os.path.join(fake, "_out", "change1.diff"))
+        os.environ["SEEDED_RUNS_SCALE"] = "0.4"
+        res = detect_scratch(fake, "1", props)
+        shutil.rmtree(fake, ignore_errors=True)
+        alarms = {k: v for k, v in res.items() if v["exit"] != 0}
+        print(rid, "silent on %d checks" % len(res) if not alarms and len(res) == len(props) else "ALARM/ERROR %s" % alarms)
+        if alarms or len(res) != len(props):
+            bad += 1
+    return bad
+
+
 def keep(wt, n, sid, prop, meta):
     d = os.path.join(VERIF, "seeded", sid)
     os.makedirs(d, exist_ok=True)
@@ -195,5 +218,7 @@ if __name__ == "__main__":
         print(json.dumps(detect_scratch(sys.argv[2], sys.argv[3], sys.argv[4:]), indent=1))
     elif cmd == "corpus":
         corpus(sys.argv[2:] or None)
+    elif cmd == "noalarm":
+        sys.exit(1 if noalarm(sys.argv[2:] or None) else 0)
     elif cmd == "keep":
         keep(*sys.argv[2:7])
